@@ -421,6 +421,48 @@ func c01Many(r *engine.Run, list []Operand) {
 	c01Check(r, p, want, res, err, c, magnitude(all))
 }
 
+// chainResults runs the 5 set operations on every unordered pair of alpha and hands each
+// non-empty result (as a fresh operand) to use. It returns whether the enumeration completed
+// and how many results were produced. Results are the library's own output: the consumers
+// judge them against the exact model like any other operand.
+func chainResults(r *engine.Run, alpha []Operand, use func(res Operand)) (bool, int64) {
+	ca := len(alpha)
+	var fed atomic.Int64
+	done := r.Parallel(ca*ca, func(k int) {
+		i, j := k/ca, k%ca
+		if i >= j {
+			return
+		}
+		for _, o := range c01Ops[:8:8] {
+			if o.swap && o.name != "Difference(b,a)" {
+				continue
+			}
+			var r1 geom.Geometry
+			var err error
+			x, y := alpha[i].G, alpha[j].G
+			if o.swap {
+				x, y = y, x
+			}
+			if pnc := engine.SafeCall(func() { r1, err = o.fn(x, y) }); pnc != nil || err != nil || r1.IsEmpty() {
+				continue // judged by C01's pair universe
+			}
+			fed.Add(1)
+			use(mkOp(r1, "result"))
+		}
+	})
+	return done, fed.Load()
+}
+
+// chainAlphabet: every step-th operand of the 3×3 alphabet plus two members of the holes family.
+func chainAlphabet(ops, hf []Operand, parts int) []Operand {
+	var out []Operand
+	step := len(ops)/parts + 1
+	for i := 0; i < len(ops); i += step {
+		out = append(out, ops[i])
+	}
+	return append(out, hf[4], hf[12])
+}
+
 func c01Main(r *engine.Run) {
 	r.Rule = "pairs (UnionMany: triples) of valid lattice geometries of all seven types incl. empties and collections with overlapping members (3×3 alphabet; 6×6 holes family; star family; exact affine images; general-position float images filtered by exact clearance): every set operation in both operand orders compared with the closure of the Boolean combination computed on the exact joint arrangement — membership of every face/edge/vertex cell, area, lineal length, isolated point count, validity, canonical shape. non-trivial = operand pairs sharing at least one arrangement vertex"
 	level := 0
@@ -479,43 +521,17 @@ func c01Main(r *engine.Run) {
 	// mixed-dimension collections, rounded crossing points) fed back as operands against every
 	// member of a reduced alphabet; kept when the joint arrangement has the property's clearance
 	{
-		var chainA []Operand
-		step := n/13 + 1
+		parts := 13
 		if r.Thorough() {
-			step = n/29 + 1
+			parts = 29
 		}
-		for i := 0; i < n; i += step {
-			chainA = append(chainA, ops[i])
-		}
-		chainA = append(chainA, hf[4], hf[12])
-		ca := len(chainA)
-		var fed atomic.Int64
-		if r.Parallel(ca*ca, func(k int) {
-			i, j := k/ca, k%ca
-			if i >= j {
-				return
+		chainA := chainAlphabet(ops, hf, parts)
+		if done, fed := chainResults(r, chainA, func(res Operand) {
+			for _, c := range chainA {
+				c01PairGP(r, res, c, true)
 			}
-			for _, o := range c01Ops[:8:8] {
-				if o.swap && o.name != "Difference(b,a)" {
-					continue
-				}
-				var r1 geom.Geometry
-				var err error
-				x, y := chainA[i].G, chainA[j].G
-				if o.swap {
-					x, y = y, x
-				}
-				if pnc := engine.SafeCall(func() { r1, err = o.fn(x, y) }); pnc != nil || err != nil || r1.IsEmpty() {
-					continue // judged by the pair universe
-				}
-				op1 := mkOp(r1, "result")
-				fed.Add(1)
-				for _, c := range chainA {
-					c01PairGP(r, op1, c, true)
-				}
-			}
-		}) {
-			r.Bound(fmt.Sprintf("chained: every non-empty result of the 5 set operations on pairs of a %d-operand alphabet fed back against every operand of it (%d intermediate results; joint arrangements below the clearance threshold dropped)", ca, fed.Load()))
+		}); done {
+			r.Bound(fmt.Sprintf("chained: every non-empty result of the 5 set operations on pairs of a %d-operand alphabet fed back against every operand of it (%d intermediate results; joint arrangements below the clearance threshold dropped)", len(chainA), fed))
 		}
 	}
 	if r.Thorough() {
